@@ -71,6 +71,7 @@ IMPORTS = {
     "C13": [("C11", {"extend-truncate", "value-truncate"}, "Truncate and Push* delegate to PrimitiveValue::truncate / extend_*", 30, None)],
     "C09": [("C03", {"vr-header-form", "header-layout", "header-bytes-read"}, "the meta group is written and read with the Explicit VR Little Endian codec", 85,
              lambda i: "explicit_le" in i["fn"])],
+    "C25": [("C29", {"pdu-roles"}, "`a PDU longer than the maximum is rejected` is decided by the maximum the associations hand to read_pdu / encode_pdu", 20, None)],
     "C26": [("C25", {"pdu-tables", "item-framing", "chunk-length"}, "P-DATA PDUs and their PDV items are framed as the reader parses them", 117, None)],
     "C28": [("C25", {"pdu-tables", "item-framing"}, "the association PDUs the acceptor reads and writes are coded as the peer codes them", 114, None)],
     "C29": [("C25", {"pdu-tables", "item-framing"}, "both peers code the association PDUs alike", 114, None)],
@@ -122,6 +123,20 @@ def collector_preamble(chk, fx, rule):
     chk.expect(ok, rule, "read_preamble", "DICM@128-consumes-128", "len >= 132 && buf[128..132] == DICM -> consume(128)", [H.show(x[2], 8) for x in at128], loc=C.fn_loc(h))
     ok = len(at0) == 1 and ops(at0[0][2]) == ["Eq"] and "DICM" in H.show(at0[0][2], 8) and not [y for y in H.walk(at0[0][3]) if H.kind(y) == "mcall" and y[3] in ("consume", "read_exact", "read")]
     chk.expect(ok, rule, "read_preamble", "DICM@0-consumes-nothing", "buf[0..4] == DICM -> None, nothing consumed", [H.show(x[2], 8) for x in at0], loc=C.fn_loc(h))
+    # whatever the option, a successful read_preamble leaves the collector in state Preamble (read_file_meta reads the meta group only
+    # from that state): every `return Ok(..)` and the tail are preceded, in their own block, by `self.state = CollectorState::Preamble`
+    def sets_state(block):
+        return any(H.kind(s) in ("semi", "sexpr") and H.kind(H.peel(s[2])) == "assign" and H.show(H.peel(s[2])[2], 3) == "self.state"
+                   and H.show(H.peel(s[2])[3], 3).endswith("CollectorState::Preamble") for s in block[2])
+    exits = []
+    for n_, anc in H.walk_anc(h["body"]):
+        if H.kind(n_) == "ret" and n_[2] is not None and "Result::Ok(" in H.show(n_[2], 3):
+            blk = [a for a in anc if H.is_node(a) and H.kind(a) == "block"]
+            exits.append((n_[1], bool(blk) and sets_state(blk[-1])))
+    body = h["body"]
+    if H.kind(body) == "block" and body[3] is not None:
+        exits.append((body[3][1] if H.is_node(body[3]) else 0, sets_state(body)))
+    chk.expect(len(exits) >= 2 and all(ok_ for _, ok_ in exits), rule, "read_preamble", "every-success-sets-state-Preamble", "self.state = CollectorState::Preamble before each Ok exit", exits, loc=C.fn_loc(h))
     if len(at0) == 1 and at0[0][4] is not None:
         e = at0[0][4]
         ok = [C.array_len(y[3]) for y in H.walk(e) if H.kind(y) == "repeat"] == [128] and any((c or "").endswith("Read::read_exact") for c, _ in H.calls(e))
@@ -154,7 +169,10 @@ def text_values_as_stored(chk, fx, rule):
             chk.expect(not shared_arm and not cutting, rule, "to_multi_str", v, "one value: the stored string itself", {"arm shared with": shared_arm, "cutting calls": cutting},
                        loc=f"{h['loc']['f']}:{ln}")
         elif v != "Empty":
-            dropping = [c for c in calls if c in ("filter", "filter_map", "skip", "take", "skip_while", "take_while", "step_by", "dedup", "rev")]
+            dropping = [c for c in calls if c in ("filter", "filter_map", "skip", "take", "skip_while", "take_while", "step_by", "dedup", "rev")
+                        or (c.startswith("split") and c != "split") or c.startswith("rsplit") or c.startswith("trim") or c in ("lines", "pop", "truncate")]
+            # a value list that ends in an empty value keeps it: `split` yields the component after the last separator, `split_terminator` /
+            # `split_whitespace` / `lines` do not
             chk.expect(not dropping, rule, "to_multi_str", v, "one string per element, in order", dropping, loc=f"{h['loc']['f']}:{ln}")
     chk.floor(rule, "variants", n, 15)
 
